@@ -309,6 +309,14 @@ def check_bindings(world: Dict[str, Any], system: model.System, require: bool = 
                 out.append(('wrong-object,route=classscope', f'in class M{cid_s}, {name!r} resolves to {got!r}, Python binds {b}'))
             elif ok is None and b[0] == 'd' and defs[str(b[1])]['outer'] == int(cid_s) and require:
                 out.append(('unresolved,route=classscope-member', f'in class M{cid_s}, own member {name!r} does not resolve'))
+            elif ok is None and b[0] == 'd' and require:
+                # imported inside the class body directly from the module that defines the object
+                org = truth.get('cns_origin', {}).get(cid_s, {}).get(name)
+                d = defs[str(b[1])]
+                if org and org[0] == d['module'] and org[1] == d['name'] and d['outer'] is None and \
+                        routes.get(f'{org[0]}:{org[1]}', 'local') == 'local':
+                    out.append((f'unresolved,route=classscope-import,moved={int(bool(truth["reexporters"].get(str(b[1]))))}',
+                                f'in class M{cid_s} ({cls.fullName()}), {name!r} imported in the class body from its defining module {org[0]} does not resolve; expandName -> {cls.expandName(name)!r}'))
     # resolved bases recorded on classes
     for modname, m in world['modules'].items():
         for scope, st in W.iter_stmts(m['body']):
@@ -596,6 +604,24 @@ def check_references(world: Dict[str, Any], system: Any) -> List[Viol]:
                     o = None
                 if o is None or marker_of(o) != i:
                     out.append((f'ref=find_object,{how}', f'find_object({q!r}) -> {o!r}, expected M{i}'))
+            # "the object and all its members": members named through either location
+            if d['kind'] == 'class':
+                for mname, mid in sorted(d.get('members', {}).items()):
+                    if defs[str(mid)].get('nodoc') or defs[str(mid)]['kind'] in ('ivar',):
+                        continue
+                    for how, q in (('old-qualified-member', f'{d["module"]}.{d["name"]}.{mname}'),
+                                   ('new-qualified-member', f'{expected_fullname(world, i)}.{mname}')):
+                        try:
+                            o = system.find_object(q)
+                        except LookupError:
+                            o = None
+                        if o is None or marker_of(o) != mid:
+                            out.append((f'ref=find_object,{how}', f'find_object({q!r}) -> {o!r}, expected member M{mid}'))
+                            break
+                    got2 = scope_obj.resolveName(f'{name}.{mname}')
+                    if got2 is None or marker_of(got2) != mid:
+                        out.append((f'ref=member-via-import,route={via}', f'in {modname}, {name}.{mname!s} resolves to {got2!r}, expected member M{mid}'))
+                    break
     # base classes
     for modname, m in world['modules'].items():
         for scope, st in W.iter_stmts(m['body']):
